@@ -16,18 +16,14 @@ Definition utf8_encode (c : N) : bytes :=
 Definition is_invalid_byte_mark (c : N) : bool := (56448 <=? c) && (c <=? 56575).   (* DC80..DCFF *)
 Definition is_surrogate (c : N) : bool := (55296 <=? c) && (c <=? 57343).           (* D800..DFFF *)
 
-(** ** decimal digits through the standard library's [Decimal.uint] *)
-Fixpoint uint_bytes (u : Decimal.uint) : bytes :=
-  match u with
-  | Decimal.Nil => []
-  | Decimal.D0 r => 48 :: uint_bytes r | Decimal.D1 r => 49 :: uint_bytes r
-  | Decimal.D2 r => 50 :: uint_bytes r | Decimal.D3 r => 51 :: uint_bytes r
-  | Decimal.D4 r => 52 :: uint_bytes r | Decimal.D5 r => 53 :: uint_bytes r
-  | Decimal.D6 r => 54 :: uint_bytes r | Decimal.D7 r => 55 :: uint_bytes r
-  | Decimal.D8 r => 56 :: uint_bytes r | Decimal.D9 r => 57 :: uint_bytes r
+(** ** decimal digits (strconv.Itoa / encoding/json's integer encoder) *)
+Fixpoint N_digits (fuel : nat) (n : N) : bytes :=
+  match fuel with
+  | O => []
+  | S f => if n <? 10 then [48 + n] else N_digits f (n / 10) ++ [48 + n mod 10]
   end.
-
-Definition N_decimal (n : N) : bytes := uint_bytes (N.to_uint n).
+(** a number has no more decimal digits than binary ones *)
+Definition N_decimal (n : N) : bytes := N_digits (S (N.to_nat (N.size n))) n.
 Definition Z_decimal (z : Z) : bytes :=
   match z with
   | Z0 => [48]
